@@ -12,13 +12,23 @@ Oracle (implementation only, on the raw bytes handed to the socket): per session
 datagrams of either direction share bytes 0..11; every datagram emitted by an endpoint that holds
 a key, except those typed SERVER_HELLO, opens with AESGCM(key).decrypt(nonce=d[:12], ct=d[20:],
 aad=d[:20]) and has exactly 20+len+16 bytes; no application payload tag occurs in any datagram's
-bytes as sent."""
+bytes as sent.  "Holds a key" means: has agreed a session key at any earlier moment of the session — the
+key an endpoint held is remembered by the harness, so a datagram emitted after the connection object
+forgot its key (disconnect, time-out, ...) is still required to be sealed under the session key.
+Sessions (d): the application closes the connection — UdpClient.disconnect() or the server-side kick
+ServerClientConnection.disconnect() — while best-effort / guaranteed messages are waiting to be re-sent
+(their acks were lost); the closing datagrams (DISCONNECT + the re-sent messages) and everything either
+side emits afterwards (further send() calls, further disconnect() calls, late datagrams arriving after
+the terminal state) are judged by the same oracle and replayed on the model."""
 import re, struct
 from harness import lib, netsim, connsim as S
 
-RULE = ("netsim sessions (handshake / established mixed traffic / wrap-crossing constant traffic) under random "
+RULE = ("netsim sessions (handshake / established mixed traffic / wrap-crossing constant traffic / application-side "
+        "disconnect() by the client API or the server-side kick with re-sends pending, then sends, further disconnects and "
+        "late datagrams after the terminal state) under random "
         "loss, duplication, reordering; non-trivial = session that emitted >= 20 sealed datagrams in each direction "
-        "(wrap sessions: crossed seq 65535 -> 1 in both directions)")
+        "(wrap sessions: crossed seq 65535 -> 1 in both directions; disconnect sessions: the closing side had messages "
+        "pending re-send and application messages left with or after its DISCONNECT)")
 ASSUMPTIONS = ["AES-GCM, ECDH/HKDF and ECDSA of the `cryptography` package are trusted (symbolic in the model)",
                "clock values are multiples of 1/1024 s (exact binary fractions), below 2^32 s"]
 TRUSTED = ["harness/connsim.py + netsim.py: translation between real datagram bytes and the model's symbolic datagrams "
@@ -63,8 +73,13 @@ def oracle_session(run, net, label):
             except Exception:     # noqa
                 ok = False
             if not ok:
-                run.oracle_violation("not-sealed-under-session-key", {"session": label, "who": who, "index": idx,
-                                                                      "hdr": rec["hdr"], "len": len(d)}, "Packet.to_bytes")
+                case = {"session": label, "who": who, "index": idx, "hdr": rec["hdr"], "len": len(d)}
+                if rec.get("key_forgotten"):
+                    case["endpoint_forgot_its_session_key"] = True
+                if "after_disconnect" in rec:
+                    case["emitted_after_disconnect_by"] = rec["after_disconnect"]
+                    case["messages"] = rec.get("msgs")
+                run.oracle_violation("not-sealed-under-session-key", case, "Packet.to_bytes")
                 continue
             n_sealed[who] += 1
             k = (kid, d[:12])
@@ -80,14 +95,32 @@ class Net2(netsim.Net):
 
     def tick(self, who, rx=None):
         before = len(self.emitted[who])
+        conn0 = self.ep(who).impl.conn
+        held = getattr(self, "held", None)
+        if held is None:
+            held = self.held = {"client": -1, "server": -1}
+        if conn0 is not None and conn0.session_key_bytes:
+            held[who] = self.keys.id_of(conn0.session_key_bytes)      # the key held BEFORE this update
         outs = super().tick(who, rx)
         conn = self.ep(who).impl.conn
         kid = self.keys.id_of(conn.session_key_bytes) if conn is not None else -1
+        if kid >= 0:
+            held[who] = kid
         for rec in self.emitted[who][before:]:
             # the key the endpoint holds after the update that emitted the datagram (the client
-            # derives it while processing the server hello and emits afterwards, in the same update)
-            rec["keyid"] = kid
+            # derives it while processing the server hello and emits afterwards, in the same update);
+            # an endpoint that held a session key and holds none now is judged by the key it held
+            rec["keyid"] = kid if kid >= 0 else held[who]
+            rec["key_forgotten"] = kid < 0 <= held[who]
         return outs
+
+    def disconnect(self, who):
+        conn = self.ep(who).impl.conn
+        if conn is not None and conn.session_key_bytes:
+            if getattr(self, "held", None) is None:
+                self.held = {"client": -1, "server": -1}
+            self.held[who] = self.keys.id_of(conn.session_key_bytes)
+        return super().disconnect(who)
 
 
 def fix_keyids(net):
@@ -141,6 +174,72 @@ def session_mixed(run, rng, n, label):
     return net, diffs, {"mtu": mtu, **cfg}
 
 
+def session_disconnect(run, rng, n, label):
+    """the application closes the connection while messages are waiting to be re-sent"""
+    cfg = {"loss": rng.choice([0, 0, 0.1]), "dup": rng.choice([0, 0.2]), "reorder": rng.choice([0, 0.2]),
+           "tick": rng.choice([300, 600, 900])}
+    mtu = rng.choice([1500, 1500, 512, 1096])
+    handshake = rng.random() < 0.3
+    net = Net2(run, rng, cfg, mtu=mtu, established=False, key=None) if handshake else Net2(run, rng, cfg, mtu=mtu)
+    who = rng.choice(["client", "server"])          # who closes: client API / server-side kick
+    peer = net.other(who)
+    info = {"closed_by": who, "handshake": handshake, "pending_resend_at_close": 0, "datagrams_after_close": 0,
+            "messages_after_close": 0}
+    try:
+        if handshake:
+            net.A.apply(("hello", net.t, rng.randrange(2)))
+            for i in range(40):
+                net.step()
+                if net.A.impl.conn.status.value == 2 and net.B.impl.conn.status.value == 2:
+                    break
+        sizes = [1, 9, 40, 300, net.env[0], net.env[0] + 1, 2500]
+        for i in range(rng.randrange(3, n)):
+            if rng.random() < 0.5:
+                net.send(rng.choice(["client", "server"]), rng.choice(sizes), rng.choice([0, 1, -1]))
+            net.step()
+        # the acks towards the closing side are lost for a while: its retried messages stay pending
+        quiet = rng.random() < 0.8
+        if quiet:
+            net.drop_filter = lambda w, rec: w == peer
+        for i in range(rng.choice([1, 2, 4, 8])):
+            for _ in range(rng.randrange(1, 4)):
+                net.send(who, rng.choice(sizes), rng.choice([1, -1, -1, 0]), api=rng.random() < 0.3)
+            net.step()
+        conn = net.ep(who).impl.conn
+        info["pending_resend_at_close"] = len(conn.pending_retry_msg)
+        info["queued_at_close"] = len(conn.outgoing_messages)
+        mark = {w: len(net.emitted[w]) for w in ("client", "server")}
+        net.disconnect(who)
+        if rng.random() < 0.5:
+            net.drop_filter = None
+        closed = {who}
+        for i in range(rng.choice([12, 25, 40])):
+            r = rng.random()
+            if r < 0.3:
+                net.send(rng.choice(["client", "server"]), rng.choice(sizes), rng.choice([0, 1, -1]))   # after the terminal state
+            elif r < 0.4:
+                w = rng.choice(["client", "server"])
+                net.disconnect(w)                       # again / the other side closes as well
+                closed.add(w)
+            elif r < 0.5 and net.emitted[peer]:
+                net.replay(who, rng.randrange(len(net.emitted[peer])))      # a late datagram after the terminal state
+            net.step()
+        info["closed"] = sorted(closed)
+        for w in ("client", "server"):
+            for rec in net.emitted[w][mark[w]:]:
+                rec["after_disconnect"] = who
+                ms = S.decode_msgs_py(rec["hdr"][4], rec["hdr"][6], bytes(rec["payload"])) or []
+                rec["msgs"] = [[sq, ty, len(p)] for (sq, ty, p) in ms][:6]
+                if w == who:
+                    info["datagrams_after_close"] += 1
+                    info["messages_after_close"] += sum(1 for (_, ty, _) in ms if ty in (6, 7))
+        fix_keyids(net)
+        diffs = net.check_models()
+    finally:
+        net.close()
+    return net, diffs, {"mtu": mtu, **cfg, **info}
+
+
 def session_wrap(run, rng, builds, seq0, label):
     """constant small traffic in both directions so that every tick builds a datagram"""
     cfg = {"loss": 0.02, "dup": 0.02, "reorder": 0.05, "tick": 300, "max_delay": T // 4}
@@ -165,6 +264,7 @@ def run(run):
     # on a broken tree every session disagrees and replaying all of them only costs time and memory
     plan = [("handshake", lambda i=i: session_handshake(run, rng, 60 if th else 40, "hs%d" % i)) for i in range(60 if th else 16)]
     plan += [("mixed", lambda i=i: session_mixed(run, rng, 200 if th else 90, "mx%d" % i)) for i in range(120 if th else 24)]
+    plan += [("disconnect", lambda i=i: session_disconnect(run, rng, 30, "dc%d" % i)) for i in range(120 if th else 24)]
     if th:
         plan.append(("wrap", lambda: session_wrap(run, rng, 3 * 65535 + 2000, None, "wrap-full")))
     plan.append(("wrap", lambda: session_wrap(run, rng, 2500, [65535 - 400, 65535 - 300], "wrap-near")))
@@ -193,6 +293,12 @@ def run(run):
         run.count("sealed_datagrams", n_sealed["client"] + n_sealed["server"])
         run.evaluations += len(net.emitted["client"]) + len(net.emitted["server"])
         nontrivial = min(n_sealed.values()) >= 20 and (kind != "wrap" or all(wrapped.values()))
+        if kind == "disconnect":
+            # non-trivial: the closing side still had messages to re-send and they left with / after the DISCONNECT
+            nontrivial = cfg["pending_resend_at_close"] > 0 and cfg["messages_after_close"] > 0
+            run.count("disconnects_with_resends_pending", 1 if nontrivial else 0)
+            run.count("disconnect_by_" + cfg["closed_by"])
+            run.count("datagrams_after_disconnect", cfg["datagrams_after_close"])
         if nontrivial:
             run.nt((label, n_sealed["client"], n_sealed["server"]))
         if kind == "wrap":
